@@ -32,6 +32,10 @@ register("C17", "exploration", "E1 explore", "exhaustive enumeration of encoding
          "All NUMBER values < 2^16 (thorough 2^24), all (length, leading byte) classes, all non-minimal encodings < 2^14, all bit vectors <= 12 bits and structured ones to 130 bits, one name per BMP scalar value, whole-header single-field deviations through raw and encoded headers; each through py7zr write->read, py7zr write->reference decode and reference encode->py7zr read.",
          "Trusts ref7z primitives (written from the format text, cross-validated on the 64 third-party fixtures).", "DESIGN.md section 5 C17")
 
+register("C01", "exploration", "E1 explore", "bounded exhaustive enumeration (full products + deviation-bounded choice tree) of write/read round trips on the real code",
+         "Every constructible filter chain x every size around the AES block and the (rebound and real) I/O block x textures, all documented parameter values, and all configurations within 2 (thorough 3) deviations of the default over header mode, target kind (path, BytesIO, file object, multi-volume 64/100/4096), member count, name class, chunk limit and API; oracle = names, extractall(factory) and extractall(path) equal the written list.",
+         "Scaled planes rebind the two size constants on the data path; an anomaly is confirmed at the real constants before it is reported. Codec libraries are trusted.", "DESIGN.md section 5 C01")
+
 NOT_YET = {}
 
 
